@@ -318,3 +318,60 @@ func TestC06_Collect(t *testing.T) {
 		rt.Case(caseKey("collect", fmt.Sprint(links), c.Script), true, "collect", func() any { return c })
 	})
 }
+
+// ---- Wait racing with Unsubscribe / terminal --------------------------------------------------------
+
+func TestC06_WaitCloseRace(t *testing.T) {
+	reps := 60000
+	if rt.Thorough() {
+		reps = 1500000
+	}
+	reps /= rt.ShardCount()
+	closers := []string{"Unsubscribe", "Complete", "Error"}
+	var wg sync.WaitGroup
+	workers := 8
+	var failMu sync.Mutex
+	failed := ""
+	for w := 0; w < workers; w++ {
+		wg.Add(1)
+		go func(w int) {
+			defer wg.Done()
+			for i := 0; i < reps/workers; i++ {
+				how := closers[(i+w)%3]
+				s := ro.NewSubscriber[int](ro.NoopObserver[int]())
+				start := make(chan struct{})
+				waited := make(chan struct{})
+				go func() { <-start; s.Wait(); close(waited) }()
+				go func() {
+					<-start
+					switch how {
+					case "Unsubscribe":
+						s.Unsubscribe()
+					case "Complete":
+						s.Complete()
+					case "Error":
+						s.Error(rt.Err(1))
+					}
+				}()
+				close(start)
+				select {
+				case <-waited:
+				case <-time.After(10 * time.Second):
+					failMu.Lock()
+					failed = fmt.Sprintf("Wait() racing with %s (iteration %d): still blocked 10s after the subscription was closed (IsClosed=%v)", how, i, s.IsClosed())
+					failMu.Unlock()
+					return
+				}
+			}
+		}(w)
+	}
+	wg.Wait()
+	c := map[string]any{"race": "Wait vs Unsubscribe/Complete/Error on one subscriber", "repetitions": reps}
+	if failed != "" {
+		rt.Report(t, rt.Failure{Property: "C06", Check: "wait-race", Op: "Subscriber", Class: "wait-never-returns-under-race", Msg: failed, Case: c})
+	}
+	for _, h := range closers {
+		rt.Case("waitrace|"+h, true, "wait-race", func() any { return c })
+	}
+	rt.NoteAdd("wait_close_race_repetitions", int64(reps))
+}
